@@ -2,23 +2,30 @@ module verif/harness
 
 go 1.23.0
 
-require github.com/openziti/storage v0.0.0
+require (
+	github.com/antlr4-go/antlr/v4 v4.13.1
+	github.com/openziti/foundation/v2 v2.0.59
+	github.com/openziti/storage v0.0.0
+	github.com/sirupsen/logrus v1.8.1
+	go.etcd.io/bbolt v1.4.0
+)
 
 require (
-	github.com/antlr4-go/antlr/v4 v4.13.1 // indirect
 	github.com/biogo/store v0.0.0-20190426020002-884f370e325d // indirect
+	github.com/davecgh/go-spew v1.1.1 // indirect
+	github.com/google/uuid v1.6.0 // indirect
 	github.com/mattn/go-colorable v0.1.12 // indirect
 	github.com/mattn/go-isatty v0.0.14 // indirect
 	github.com/mgutz/ansi v0.0.0-20200706080929-d51e80ef957d // indirect
 	github.com/michaelquigley/pfxlog v0.6.10 // indirect
-	github.com/openziti/foundation/v2 v2.0.59 // indirect
 	github.com/pkg/errors v0.9.1 // indirect
-	github.com/sirupsen/logrus v1.8.1 // indirect
-	go.etcd.io/bbolt v1.4.0 // indirect
+	github.com/pmezard/go-difflib v1.0.0 // indirect
+	github.com/stretchr/testify v1.10.0 // indirect
 	golang.org/x/crypto v0.1.0 // indirect
 	golang.org/x/exp v0.0.0-20240506185415-9bf2ced13842 // indirect
 	golang.org/x/sys v0.31.0 // indirect
 	golang.org/x/term v0.30.0 // indirect
+	gopkg.in/yaml.v3 v3.0.1 // indirect
 )
 
 replace github.com/openziti/storage => /repo
